@@ -51,6 +51,14 @@ def W5():
     ]
 
 
+def W6():
+    """large vessels next to a small plate: limits that are crossed by tenths of a microlitre"""
+    return [
+        plate("P", 2, 3, 10, 200, 100),
+        trough("T", 3, 2, 20000, 100000, [20000.5, 99999.5]),
+    ]
+
+
 def callers_arrays_unchanged(W, config):
     """arrays the 'caller' handed to the constructors (spec np=True / share=tag) still hold the initial values"""
     bad = []
